@@ -7,8 +7,8 @@ from .e1check import E1Outcome, e1_coverage, finish, run_parser_groups
 ASSUMPTIONS = [
     "bounded model checking (Kani 0.68/CBMC 6.11), unwinding assertions on",
     "P12: the functions of TokenParser listed in vlib/parser_props.py TP_FNS (stop_reason, stopped, is_accepting, clear_caches, stop, check_initialized, validate_token, reset, rollback, validate_tokens_raw, compute_mask_inner, apply_token, consume_token, check_stop, ...) are cut verbatim from /repo's current tokenparser.rs on every run and re-hosted in a mock TokenParser with the same field names; ensure!/format!/infoln!/warn!/anyhow are shadowed (no message text is built)",
-    "stub contract (part of the claim): the Earley parser is a byte stack; apply_token(bytes) appends exactly the bytes or fails without effect; rollback(n) drops exactly n bytes or fails without effect when n exceeds the stack; is_accepting/can_advance/accepts-next-token are arbitrary functions of the stack depth; scan_eos() answers false (EOS ending a gen() lexeme is outside); no backtracking (Matcher refuses it), empty grammar prefix; vocabulary of 4 tokens with symbolic lengths 0..2 bytes (0..1 for the two-token histories), token 3 is the end-of-sequence token and may carry bytes (special-token spelling); token_len(t) == decode_raw([t]).len() (decided for the real trie by K16.6)",
-    "decided: from ANY consistent state after 0-1 tokens (symbolic contents), commit 1 or 2 tokens (each possibly end-of-sequence — accepted as end of sequence in an accepting state, or given to the parser as bytes when the grammar names it — with or without check_stop() after the last one), then rollback of that many: token list, byte list, parser byte history, token budget, stop status and the is_accepting / ff_tokens caches equal those before; rollback beyond the history or in a failed state is refused without effect; a committed token appends exactly its bytes to both histories",
+    "stub contract (part of the claim): the Earley parser is a byte stack; apply_token(bytes) appends exactly the bytes or fails without effect; rollback(n) drops exactly n bytes or fails without effect when n exceeds the stack; is_accepting/can_advance/accepts-next-token are arbitrary functions of the stack depth; scan_eos() answers false (EOS ending a gen() lexeme is outside); no backtracking (Matcher refuses it), empty grammar prefix; vocabulary of 4 tokens with symbolic lengths 0..2 bytes, token 3 is the end-of-sequence token and may carry bytes (special-token spelling); token_len(t) == decode_raw([t]).len() (decided for the real trie by K16.6)",
+    "decided: from ANY consistent state after 0-1 tokens (symbolic contents), commit one token (possibly end-of-sequence — accepted as end of sequence in an accepting state, or given to the parser as bytes when the grammar names it — with or without check_stop() after the last one), then rollback of that many: token list, byte list, parser byte history, token budget, stop status and the is_accepting / ff_tokens caches equal those before; rollback beyond the history or in a failed state is refused without effect; a committed token appends exactly its bytes to both histories",
     "P12f (forced-bytes memo): ParserState::{needs_force_bytes, force_bytes, with_items_limit, rollback, has_pending_lexeme_bytes, lexer_state, num_rows, assert_definitive*, check_lexer_bytes_invariant} verbatim in a mock parser state; forced_byte() answers as a symbolic function of the identity of the definitive byte history (ghost version per stack entry; forced chains one byte long), try_push_byte_definitive pushes the byte. Decided for the histories commit/force/rollback(1|2)/commit/force (3 shapes): whenever force_bytes() returns, nothing is forced any more — the 'already done at this length' memo never skips a state that a rollback made new",
     "representation invariant checked after every rollback: the end-of-sequence bookkeeping (bare_eos_idx) only names tokens that are still in the token list",
     "outside the claim: ParserState::rollback's own truncation of lexer stack / rows / row infos against the Earley tables (its mask-cache invalidation is decided under C11), captures, equality of all later behaviour (needs the interpreter)",
@@ -20,10 +20,10 @@ def run():
     out = E1Outcome()
     specs = pp.specs("tpproto", "c12", "proto_fail") + [s for s in pp.specs("tpproto", "c01")] + pp.specs("pforce", "c12", "c12_fail")
     if tier() == "quick":
-        specs = [s for s in specs if "n1_k2" not in s["name"]]
+        specs = [s for s in specs if "_k2" not in s["name"]]
     info = run_parser_groups("C12", "c12", ["tpproto", "pforce"], specs, out, jobs=6, harness_timeout_s=1200, mem_gb=40)
     cov = e1_coverage(out, [dict(harness=s["name"]) for s in specs[:8]],
                       ["tokenparser.rs TokenParser::{" + ", ".join(pp.TP_FNS) + "} (whole-function slices)",
                        "earley/parser.rs ParserState::{" + ", ".join(pp.PFORCE_FNS) + "} (whole-function slices)"],
-                      dict(prior_tokens="0..1", committed="1..2", token_len="0..2", vocab=4), dict(tier=tier(), stubs=["earley::Parser (byte stack)", "TokTrie (4-token table)", "ensure!/format!/infoln!/warn!/anyhow (no message text)"], **info))
+                      dict(prior_tokens="0..1", committed="1 (inductive step from an arbitrary consistent state)", token_len="0..2", vocab=4), dict(tier=tier(), stubs=["earley::Parser (byte stack)", "TokTrie (4-token table)", "ensure!/format!/infoln!/warn!/anyhow (no message text)"], **info))
     return finish("C12", out, tm, "model_checking", cov, ASSUMPTIONS)
